@@ -322,7 +322,7 @@ static void hd_owner_body(void* arg) {
     vf_cur_op = (uint64_t)round;
     mi_heap_t* H = mi_heap_new();
     if (H == nullptr) continue;
-    int nb = 4 + (int)vf_rng_below(&t.rng, 28);
+    int nb = (C.live > 64 ? C.live / 2 + (int)vf_rng_below(&t.rng, (uint64_t)C.live) : 4 + (int)vf_rng_below(&t.rng, 28));   // --live: many blocks per heap => many full pages (parallel runs)
     size_t n = (vf_rng_chance(&t.rng, 1, 2) ? 16 + (size_t)vf_rng_below(&t.rng, 100) : 900 + (size_t)vf_rng_below(&t.rng, 3000));
     std::vector<MBlk> bs;
     for (int i = 0; i < nb; i++) { MBlk b; if (do_alloc(t, &b, H, n)) bs.push_back(b); }
